@@ -10,11 +10,13 @@
    with a wrong size or with live objects inside, null / dangling dereference …), `.error (.exc _)` (the modelled C++
    throws; the history ends there and nothing more is claimed), `.error (.bad _)` (ill-formed history).
 
-   What is proved at full strength over ALL histories is stated for the classes whose method contracts are
-   proved (`coverage`): the theta / tuple hash table and the frequent-items reverse purge hash map (+ sketch).
-   The KLL programs are modelled and tied to the code by the per-operation correspondence check; their contracts are
-   not all proved yet, which is why the theorems carry the suffix `_partial` and the hypothesis `Covered ops`
-   (no `new kll` in the history; objects of the covered classes may be mixed freely in one heap). -/
+   The theorems quantify over ALL histories, over any number of live objects of the three modelled classes mixed in
+   one heap (theta / tuple hash table, KLL sketch, frequent-items reverse purge hash map + sketch), over all
+   parameters, item values, coin sequences, hash functions and summary policies.  Two things are NOT claimed:
+   (i) what happens after the modelled code throws (`Err.exc`: the C++ `std::logic_error`/`invalid_argument` throws,
+   the fuel bound of probe loops, `n_` beyond 2^64) – exception safety is outside the calculus; that the internal
+   `logic_error`s are unreachable is not proved (the correspondence runs never observed one);
+   (ii) classes without a program model (monitored only by the harness: see vlib/props/c19.py). -/
 import DSProofs.Lemmas.LifeSpecAll
 import DSGen.Life
 namespace DS.Life
@@ -36,44 +38,53 @@ def genCfg (hashOf strideOf : Nat → Nat) (comb : Nat → Nat → Nat) : Cfg :=
     against the regenerated DSGen/Life.lean) -/
 theorem life_generated_tunables_ok (hashOf strideRaw : Nat → Nat) (comb : Nat → Nat → Nat) :
     (genCfg hashOf (fun lg => strideRaw lg ||| 1) comb).OK := by
-  refine ⟨?_, ?_, fun lg => Fi.or_one_odd _⟩
+  refine ⟨?_, ?_, fun lg => Fi.or_one_odd _, ?_⟩
   · unfold Theta.Params.OK genCfg
     simp only
     decide
   · unfold Fi.Params.OK genCfg
     simp only
     decide
+  · unfold Kll.Params.OK genCfg
+    simp only
+    decide
 
-/-- histories that construct only objects of the classes whose contracts are proved -/
-def Covered (ops : List Op) : Prop := ∀ op, op ∈ ops → Allowed coverage op
+/-- every operation is covered: contracts are proved for all three modelled classes -/
+theorem allowed_all (ops : List Op) : ∀ op, op ∈ ops → Allowed coverage op := by
+  intro op _
+  cases op <;> trivial
 
-/-- full statement (all three classes): not yet proved for histories that construct KLL objects -/
-def life_no_precondition_failure_full : Prop :=
-  ∀ (C : Cfg), C.OK → ∀ (ops : List Op) (msg : String), run C World.init ops ≠ .error (.pre msg)
+/-- every history keeps the world invariant (helper for the statements below) -/
+theorem world_inv_of_run (C : Cfg) (hC : C.OK) (ops : List Op) (w : World) (hr : run C World.init ops = .ok w) :
+    WorldInv (spec C) w := by
+  have := run_safe (contracts C hC) ops (WorldInv.init (spec C)) (allowed_all ops)
+  rw [hr] at this
+  exact this
 
 /-- NO PRECONDITION FAILURE: in every lifecycle history over any number of live objects no primitive is ever applied
     outside its precondition (no double destroy, no construct over a live object, no read of a moved-from / raw slot,
     no release with a wrong size or with live objects inside, no use of a released or foreign block).
-    Partial: histories that construct theta / tuple tables and frequent-items sketches (any mix), not KLL sketches. -/
-theorem life_no_precondition_failure_partial (C : Cfg) (hC : C.OK) (ops : List Op) (hcov : Covered ops) (msg : String) :
+    (An `Err.exc` outcome – the modelled C++ throws – ends a history; nothing is claimed after it.) -/
+theorem life_no_precondition_failure (C : Cfg) (hC : C.OK) (ops : List Op) (msg : String) :
     run C World.init ops ≠ .error (.pre msg) := by
-  have := run_safe (contracts C hC) ops (WorldInv.init (spec C)) hcov
+  have := run_safe (contracts C hC) ops (WorldInv.init (spec C)) (allowed_all ops)
   intro e
   rw [e] at this
   exact this
 
-example : Covered [.newTable 0 5 0 (2 ^ 63 - 1), .newFi 3 4 3, .update 0 11 1 [], .update 3 7 2 [], .copy 0 1, .move 0 2,
-    .copyAssign 0 1, .moveAssign 1 2, .copy 3 4, .merge 3 4 true [], .trim 1, .reset 0, .serialize 1, .roundTrip 3 5,
-    .destroy 2, .destroy 0, .destroy 1, .destroy 3, .destroy 4, .destroy 5] := by
-  intro op hop
-  simp only [List.mem_cons, List.not_mem_nil, or_false] at hop
-  rcases hop with rfl | rfl | rfl | rfl | rfl | rfl | rfl | rfl | rfl | rfl | rfl | rfl | rfl | rfl | rfl | rfl | rfl | rfl | rfl | rfl <;>
-    trivial
+/-- non-vacuity: the hypothesis `C.OK` holds for the generated configuration (any hash, any `… | 1` stride, any policy), and
+    the conclusion applies to a history that mixes the three classes -/
+example (msg : String) : run (genCfg (fun v => v * 2654435761) (fun lg => (2 ^ lg * 5 / 8) ||| 1) (fun a b => a + b)) World.init
+    [.newTable 0 5 0 (2 ^ 63 - 1), .newFi 3 4 3, .newKll 6 8, .update 0 11 1 [], .update 3 7 2 [], .update 6 5 0 [true], .copy 0 1,
+     .move 0 2, .copyAssign 0 1, .moveAssign 1 2, .copy 3 4, .merge 3 4 true [], .copy 6 7, .merge 6 7 false [], .trim 1, .reset 0,
+     .serialize 1, .roundTrip 3 5, .query 6 1, .destroy 2, .destroy 0, .destroy 1, .destroy 3, .destroy 4, .destroy 5, .destroy 6,
+     .destroy 7] ≠ .error (.pre msg) :=
+  life_no_precondition_failure _ (life_generated_tunables_ok _ _ _) _ msg
 
 /-- SLOTS = COUNTERS: after every operation of every history, for every live table object the set of non-raw slots of its
     block is exactly the set of slots with a non-zero key, the block has `2^lg_cur_size` cells, `num_entries_` is the
     number of non-zero keys, and a moved-from object owns nothing. -/
-theorem life_slots_inv_partial (C : Cfg) (hC : C.OK) (ops : List Op) (hcov : Covered ops) (w : World)
+theorem life_slots_inv (C : Cfg) (hC : C.OK) (ops : List Op) (w : World)
     (hr : run C World.init ops = .ok w) (e : Entry) (he : e ∈ w.objs) (t : Theta.Table) (ht : e.obj = .table t) :
     match t.entries with
     | none => True
@@ -82,8 +93,7 @@ theorem life_slots_inv_partial (C : Cfg) (hC : C.OK) (ops : List Op) (hcov : Cov
       (∀ i, i < 2 ^ t.lgCur → (stAt w.heap b i ≠ .raw ↔ wordAt w.heap b i ≠ 0)) ∧
       (∀ i, i < 2 ^ t.lgCur → stAt w.heap b i ≠ .moved) ∧
       t.num = cnt (fun i => wordAt w.heap b i != 0) (2 ^ t.lgCur) := by
-  have := run_safe (contracts C hC) ops (WorldInv.init (spec C)) hcov
-  rw [hr] at this
+  have := world_inv_of_run C hC ops w hr
   have hi := (this.inv e he).1
   rw [ht] at hi
   change Theta.TableInv C.theta w.heap t at hi
@@ -105,7 +115,7 @@ theorem life_slots_inv_partial (C : Cfg) (hC : C.OK) (ops : List Op) (hcov : Cov
 /-- SLOTS = COUNTERS for the frequent-items map: the three blocks have `2^lg_cur_size` cells, slot `i` of `keys_` holds an
     object exactly when `states_[i] > 0`, `values_` / `states_` never hold objects, and `num_active_` is the number of
     active states. -/
-theorem life_slots_inv_fi_partial (C : Cfg) (hC : C.OK) (ops : List Op) (hcov : Covered ops) (w : World)
+theorem life_slots_inv_fi (C : Cfg) (hC : C.OK) (ops : List Op) (w : World)
     (hr : run C World.init ops = .ok w) (e : Entry) (he : e ∈ w.objs) (s : Fi.Sketch) (hs : e.obj = .fi s) :
     (∃ k v st, s.map.keys = some k ∧ s.map.values = some v ∧ s.map.states = some st ∧
       w.heap.count? k = some (2 ^ s.map.lgCur) ∧ w.heap.count? v = some (2 ^ s.map.lgCur) ∧
@@ -114,8 +124,7 @@ theorem life_slots_inv_fi_partial (C : Cfg) (hC : C.OK) (ops : List Op) (hcov : 
       (∀ i, stAt w.heap v i = .raw ∧ stAt w.heap st i = .raw) ∧
       s.map.numActive = cnt (fun i => decide (0 < wordAt w.heap st i)) (2 ^ s.map.lgCur)) ∨
     (s.map.keys = none ∧ s.map.values = none ∧ s.map.states = none ∧ s.map.numActive = 0) := by
-  have := run_safe (contracts C hC) ops (WorldInv.init (spec C)) hcov
-  rw [hr] at this
+  have := world_inv_of_run C hC ops w hr
   have hi := (this.inv e he).1
   rw [hs] at hi
   change Fi.Inv C.fi w.heap s.map at hi
@@ -127,16 +136,43 @@ theorem life_slots_inv_fi_partial (C : Cfg) (hC : C.OK) (ops : List Op) (hcov : 
     · simp [hp, hnr]
   · exact Or.inr ⟨hk, hv, hst, hc⟩
 
+/-- SLOTS = COUNTERS for KLL: the items buffer has `items_size_` cells, the non-raw cells are exactly the index range
+    `[levels_[0], levels_[num_levels_])` (= `[levels_[0], items_size_)`), `levels_` is non-decreasing with
+    `num_levels_ + 1` entries, and for an object that is not moved-from every retained item is live. -/
+theorem life_slots_inv_kll (C : Cfg) (hC : C.OK) (ops : List Op) (w : World)
+    (hr : run C World.init ops = .ok w) (e : Entry) (he : e ∈ w.objs) (s : Kll.Sketch) (hs : e.obj = .kll s)
+    (b : Nat) (hb : s.items = some b) :
+    w.heap.count? b = some s.itemsSize ∧
+    s.levels.length = s.numLevels + 1 ∧ s.levels.getD s.numLevels 0 = s.itemsSize ∧
+    (∀ i, i < s.numLevels → s.levels.getD i 0 ≤ s.levels.getD (i + 1) 0) ∧
+    (∀ i, i < s.itemsSize → (stAt w.heap b i ≠ .raw ↔ s.levels.getD 0 0 ≤ i)) ∧
+    (e.usable = true → ∀ i, s.levels.getD 0 0 ≤ i → i < s.itemsSize → ∃ v, stAt w.heap b i = .live v) := by
+  have := world_inv_of_run C hC ops w hr
+  obtain ⟨hi, hu⟩ := this.inv e he
+  rw [hs] at hi hu
+  change Kll.Inv C.kll w.heap s at hi
+  obtain ⟨lv, ia, _, _, _⟩ := hi.items_ok b hb
+  refine ⟨ia.cells, lv.len, lv.top, lv.mono, ?_, ?_⟩
+  · intro i hlt
+    by_cases hle : s.levels.getD 0 0 ≤ i
+    · exact ⟨fun _ => hle, fun _ => ia.nonraw i hle hlt⟩
+    · exact ⟨fun hnr => absurd (ia.raw i (by omega)) hnr, fun h2 => absurd h2 hle⟩
+  · intro hus i h1 h2
+    have u : Kll.Usable C.kll w.heap s := hu hus
+    obtain ⟨b', hb', hl⟩ := u.items
+    rw [hb] at hb'
+    cases hb'
+    exact hl i h1 h2
+
 /-- OWNERSHIP: live objects own pairwise disjoint blocks, every block of the heap is owned by some live object, and
     every owned block exists.  (Copy: `life_copy_fresh_equal`; move: `life_move_transfers`.) -/
-theorem life_ownership_partial (C : Cfg) (hC : C.OK) (ops : List Op) (hcov : Covered ops) (w : World)
+theorem life_ownership (C : Cfg) (hC : C.OK) (ops : List Op) (w : World)
     (hr : run C World.init ops = .ok w) :
     (∀ e1 e2, e1 ∈ w.objs → e2 ∈ w.objs → e1.id ≠ e2.id → ∀ b, b ∈ (spec C).owned e1.obj → b ∉ (spec C).owned e2.obj) ∧
     (∀ b, b ∈ w.heap.ids → ∃ e, e ∈ w.objs ∧ b ∈ (spec C).owned e.obj) ∧
     (∀ e, e ∈ w.objs → ∀ b, b ∈ (spec C).owned e.obj → b ∈ w.heap.ids) ∧
     w.heap.ids.Nodup := by
-  have := run_safe (contracts C hC) ops (WorldInv.init (spec C)) hcov
-  rw [hr] at this
+  have := world_inv_of_run C hC ops w hr
   exact ⟨this.disj, this.owner, fun e he b hb => ((spec C).owned_ids (this.inv e he).1 b hb).1, this.wf.1⟩
 
 /-- COPY yields a fresh block and an equal abstraction: the copy constructor of a usable table allocates a new block
@@ -162,10 +198,9 @@ theorem life_move_transfers (P : Theta.Params) (h : Heap) (t : Theta.Table) (u :
   Theta.moveCtor_spec' P h t u
 
 /-- DESTRUCTORS RETURN EVERYTHING: when a history has destroyed all its objects the heap is empty. -/
-theorem life_dtor_returns_all_partial (C : Cfg) (hC : C.OK) (ops : List Op) (hcov : Covered ops) (w : World)
+theorem life_dtor_returns_all (C : Cfg) (hC : C.OK) (ops : List Op) (w : World)
     (hr : run C World.init ops = .ok w) (hnone : w.objs = []) : w.heap.blocks = [] := by
-  have := run_safe (contracts C hC) ops (WorldInv.init (spec C)) hcov
-  rw [hr] at this
+  have := world_inv_of_run C hC ops w hr
   have hids : w.heap.ids = [] := by
     cases hi : w.heap.ids with
     | nil => rfl
